@@ -198,6 +198,10 @@ def run(ctx, rep):
     n = run_wiresig(ctx, rep, "LEDGER-WIRESIG", None, ledger=True)
     rep.floor("LEDGER-WIRESIG reader records (pairs x versions)", n, tab.get("wiresig_floor", 250))
 
+    from ..predsig import run_predsig_ledger
+    rep.rules_text.append("LEDGER-PREDSIG: the set of (operation, width[, constant]) and shared helpers that produce the predicted value of every prediction-scheme decoder (helpers of the prediction_schemes directory inlined) equals the frozen set of rules/predsig_ledger.json: the prediction is part of what a stored stream means")
+    n_ps = run_predsig_ledger(ctx, rep)
+    rep.floor("prediction-scheme decoders with a frozen arithmetic signature", n_ps, 5)
     from ..rejects import run_rejects
     rep.rules_text.append("REJECT-LEDGER: every constant-bound rejection of a stream-derived field in the readers (a branch outcome that only reaches failing returns on `field op constant`) is listed in the frozen ledger rules/rejects.json; a new one narrows what the reader accepts")
     n_rej = run_rejects(ctx, rep, "REJECT-LEDGER", None)
